@@ -222,11 +222,36 @@ pub fn decode(s: &str) -> String {
     out
 }
 
+/// the text without its front matter block
+fn body_of(text: &str) -> String {
+    if let Some(rest) = text.strip_prefix("---\n") {
+        if let Some(i) = rest.find("\n---\n") {
+            return rest[i + 5..].trim_start_matches('\n').to_string();
+        }
+    }
+    text.to_string()
+}
+
+/// the same body under another front matter block (other line count, other value, none)
+fn with_front_matter(variant: usize, body: &str) -> String {
+    match variant % 5 {
+        0 => format!("---\ntitle: a\n---\n\n{}", body),
+        1 => format!("---\ntitle: a\ntags: x\nmodified: y\n---\n\n{}", body),
+        2 => format!("---\ntitle: b\n---\n\n{}", body),
+        3 => format!("---\ntitle: a\ntags: x\n---\n\n{}", body),
+        _ => body.to_string(),
+    }
+}
+
 /// bias steps towards the interesting transitions
 fn bias(r: &mut Rng, h: &mut History) {
     let keys: Vec<String> = h.import.iter().map(|(k, _)| k.clone()).collect();
-    for s in h.steps.iter_mut() {
-        match r.below(10) {
+    let mut current: HashMap<String, String> = h.import.iter().cloned().collect();
+    let mut i = 0;
+    while i < h.steps.len() {
+        let k = h.steps[i].0.clone();
+        let s = &mut h.steps[i];
+        match r.below(12) {
             // the heading is there but has no text (still being typed, or only an image): the title becomes empty
             8 => s.1 = r.pick(&["# \n", "#\n\ntext\n", "# ![](img.png)\n\nbody\n", "# \u{a0}\n", "## \n\n[x](a)\n"]).to_string(),
             // … and a note whose whole text goes away
@@ -235,7 +260,22 @@ fn bias(r: &mut Rng, h: &mut History) {
             1 => s.1 = format!("# t {}\n\n| a |\n|---|\n| b |\n\n[x]({})\n\ninline [y]({}) link\n", s.0.len(), r.pick(&keys[..]), r.pick(&keys[..])), // content after a table
             2 => s.1 = "# only a heading\n".into(), // all references removed
             3 => s.1 = format!("[ref]({})\n", crate::oracle::md::rel_url(r.pick(&keys[..]).as_str(), &crate::oracle::md::dir_of(&s.0))),
+            // only the front matter changes (an editor stamping `modified:`): the body keeps its bytes and moves to other lines;
+            // this step and the next one edit the same note
+            10 | 11 => {
+                let body = body_of(current.get(&k).unwrap_or(&s.1));
+                let v = r.below(5);
+                s.1 = with_front_matter(v, &body);
+                if i + 1 < h.steps.len() {
+                    let w = v + 1 + r.below(4);
+                    h.steps[i + 1] = (k.clone(), with_front_matter(w, &body));
+                    current.insert(k.clone(), h.steps[i].1.clone());
+                    i += 1;
+                }
+            }
             _ => {}
         }
+        current.insert(k.clone(), h.steps[i].1.clone());
+        i += 1;
     }
 }
